@@ -74,6 +74,7 @@ type c12Expect struct {
 	Models   []*c11Point
 	Prec     string
 	Detail   string
+	Special  string // kind of the single special defect of the batch, or "none"
 	Trigger  string // "leading_space+quote" when a line starts with a blank run containing a space and contains a double quote
 }
 
@@ -104,8 +105,11 @@ var c12Defects = []string{
 	"field_without_value", "field_without_key", "bad_number", "int_out_of_range", "uint_out_of_range", "negative_unsigned",
 	"float_out_of_range", "bad_boolean", "nan_inf", "bad_timestamp", "timestamp_out_of_range", "trailing_garbage",
 	"reserved_tag_key", "key_too_long", "series_key_too_long", "unbalanced_quote", "empty_tag_key", "fields_separator_missing",
-	"field_key_blank", "bytes_after_string",
 }
+
+// defect kinds that get batches of their own (exactly one defect line), so that everything a
+// mishandled line of that kind causes in its batch is labelled with the kind ("special")
+var c12SpecialDefects = []string{"field_key_blank", "bytes_after_string", "field_count_fooled"}
 
 func c12DefectLine(rg *vkit.Rand, kind, prec string) string {
 	ts := " 1600000000"
@@ -169,6 +173,8 @@ func c12DefectLine(rg *vkit.Rand, kind, prec string) string {
 		return vkit.Pick(rg, []string{"cpu \t=1", "cpu \x00=1", "cpu,host=a \t\t=1i", "cpu \x00\t=true"}) + ts
 	case "bytes_after_string": // a string value must end at its closing quote
 		return vkit.Pick(rg, []string{`cpu value="a"b`, `cpu value=""=4,"==""`, `cpu value="a"1i,other=2`}) + ts
+	case "field_count_fooled": // a field without '=' compensated by a stray '=' elsewhere: the '='/',' counts match
+		return vkit.Pick(rg, []string{`cpu a=1,b,c="=",d="`, `cpu a=1,b,c="=",d="` + ts, `cpu,host=a x=1i,y,z="=",w="`})
 	case "unbalanced_quote":
 		return vkit.Pick(rg, []string{`cpu value="abc`, `cpu a=1,value="abc\"`, `cpu value="a"b"`})
 	}
@@ -209,11 +215,18 @@ func c12Structured(rg *vkit.Rand, withDefects bool) c12Input {
 		e.Defects = append(e.Defects, "")
 		e.Models = append(e.Models, &pp)
 	}
+	e.Special = "none"
 	if withDefects {
 		e.Kind = "defect"
 		nd := rg.Range(1, 3)
+		if rg.Chance(1, 12) {
+			nd, e.Special = 1, vkit.Pick(rg, c12SpecialDefects)
+		}
 		for d := 0; d < nd; d++ {
 			kind := vkit.Pick(rg, c12Defects)
+			if e.Special != "none" {
+				kind = e.Special
+			}
 			line := c12DefectLine(rg, kind, prec)
 			pos := rg.Intn(len(e.Lines) + 1)
 			if kind == "unbalanced_quote" {
@@ -280,7 +293,7 @@ func c12Boundary(rg *vkit.Rand) c12Input {
 	}
 	valid := keyLen <= models.MaxKeyLength && keyLen+4+maxF <= models.MaxKeyLength
 	line := name + tags + " " + fields + " 1600000000"
-	e := &c12Expect{Kind: "boundary", Trigger: "none", Prec: "s", Lines: []string{line}, Valid: []bool{valid}, Defects: []string{""}, Models: []*c11Point{nil},
+	e := &c12Expect{Kind: "boundary", Trigger: "none", Special: "none", Prec: "s", Lines: []string{line}, Valid: []bool{valid}, Defects: []string{""}, Models: []*c11Point{nil},
 		Detail: fmt.Sprintf("key length %d, field keys %d/%d, limit %d", keyLen, f, f2, models.MaxKeyLength)}
 	if !valid {
 		e.Defects[0] = "series_key_too_long"
@@ -573,6 +586,11 @@ func c12FieldShape(pt models.Point) (shape string) {
 			i++
 		}
 		key := blob[k:i]
+		for x := 0; x < len(key); x++ {
+			if (key[x] == ',' || key[x] == ' ') && (x == 0 || key[x-1] != '\\') {
+				return "separator_inside_key"
+			}
+		}
 		if len(strings.Trim(key, " \t\x00")) == 0 {
 			if len(key) == 0 {
 				return "empty_key"
@@ -624,7 +642,7 @@ func c12Validate(resp *c12Resp, i int, in c12Input, idx int, pt models.Point) {
 	defer func() {
 		if e := recover(); e != nil {
 			st := debug.Stack()
-			resp.viol("returned_point_panics", map[string]string{"site": c12Site(st)}, wit(map[string]any{"panic": fmt.Sprint(e), "repo_frames": c11RepoFrames(st)}))
+			resp.viol("returned_point_panics", map[string]string{"site": c12Site(st), "field_shape": c12FieldShape(pt)}, wit(map[string]any{"panic": fmt.Sprint(e), "repo_frames": c11RepoFrames(st)}))
 		}
 	}()
 	resp.Events["points_validated"]++
@@ -767,14 +785,14 @@ func c12CheckExpect(resp *c12Resp, i int, in c12Input, res c12Parsed) {
 					w["solo_error"] = solo.err.Error()
 				}
 				if e.Valid[k] {
-					resp.viol("valid_line_rejected", map[string]string{"kind": in.Kind, "trigger": e.Trigger}, w)
+					resp.viol("valid_line_rejected", map[string]string{"kind": in.Kind, "trigger": e.Trigger, "special": e.Special}, w)
 				} else {
-					resp.viol("malformed_line_accepted", map[string]string{"defect": e.Defects[k], "trigger": e.Trigger}, w)
+					resp.viol("malformed_line_accepted", map[string]string{"defect": e.Defects[k], "trigger": e.Trigger, "special": e.Special}, w)
 				}
 			}
 		}
 		if !blamed {
-			resp.viol("batch_accounting_wrong", map[string]string{"kind": in.Kind, "what": "points_or_error_count", "trigger": e.Trigger}, base())
+			resp.viol("batch_accounting_wrong", map[string]string{"kind": in.Kind, "what": "points_or_error_count", "trigger": e.Trigger, "special": e.Special}, base())
 		}
 		return
 	}
@@ -793,7 +811,7 @@ func c12CheckExpect(resp *c12Resp, i int, in c12Input, res c12Parsed) {
 				w := base()
 				w["expected_piece_prefix"] = c12Clip([]byte(pfx))
 				w["rejected_line_no"] = n
-				resp.viol("error_does_not_name_rejected_line", map[string]string{"kind": in.Kind, "defect": e.Defects[k], "trigger": e.Trigger}, w)
+				resp.viol("error_does_not_name_rejected_line", map[string]string{"kind": in.Kind, "defect": e.Defects[k], "trigger": e.Trigger, "special": e.Special}, w)
 				return
 			}
 			// skip to the next piece: causes never contain a newline unless the line itself does (it does not)
@@ -810,7 +828,7 @@ func c12CheckExpect(resp *c12Resp, i int, in c12Input, res c12Parsed) {
 		if rest != "" {
 			w := base()
 			w["unexpected_extra_error_text"] = c12Clip([]byte(rest))
-			resp.viol("error_names_accepted_line", map[string]string{"kind": in.Kind, "trigger": e.Trigger}, w)
+			resp.viol("error_names_accepted_line", map[string]string{"kind": in.Kind, "trigger": e.Trigger, "special": e.Special}, w)
 		}
 		resp.Events["error_texts_matched"]++
 	}
@@ -860,7 +878,7 @@ func c12CheckExpect(resp *c12Resp, i int, in c12Input, res c12Parsed) {
 				comp = append(comp, c)
 			}
 			sort.Strings(comp)
-			resp.viol("accepted_point_differs_from_line", map[string]string{"component": strings.Join(comp, "+"), "trigger": e.Trigger}, w)
+			resp.viol("accepted_point_differs_from_line", map[string]string{"component": strings.Join(comp, "+"), "trigger": e.Trigger, "special": e.Special}, w)
 		}
 	}
 }
@@ -953,7 +971,7 @@ func TestC12(t *testing.T) {
 	tally := gpNewTally(r)
 	defer tally.Flush()
 	corpus := c12LoadCorpus()
-	r.Rule("a case = one input to ParsePointsWithPrecision, a pure function of (seed, case#): 12% structured valid batches (clean C11 model points, whitespace/comment/blank-line variations), 18% valid batches with 1–3 injected defect lines of 26 known kinds, 1% key-length boundary lines (65 535), 14% mutations of generated batches, 40% mutations of the " + fmt.Sprint(len(corpus)) + " string literals of models/points_test.go (1–4 stacked byte/structure mutations: hostile bytes, delete/duplicate/truncate/splice, extreme numbers, 95–210 tags, backslash before delimiter, 65 KB keys), 15% byte soup; precisions ns/us/ms/s and unknown ones; executed in child processes with the input journalled before parsing; non-trivial = the parser returned a point or an error; distinct = hash of (precision, input)")
+	r.Rule("a case = one input to ParsePointsWithPrecision, a pure function of (seed, case#): 12% structured valid batches (clean C11 model points, whitespace/comment/blank-line variations), 18% valid batches with 1–3 injected defect lines of 24 known kinds (1 in 12 of them: a single line of one of 3 further kinds), 1% key-length boundary lines (65 535), 14% mutations of generated batches, 40% mutations of the " + fmt.Sprint(len(corpus)) + " string literals of models/points_test.go (1–4 stacked byte/structure mutations: hostile bytes, delete/duplicate/truncate/splice, extreme numbers, 95–210 tags, backslash before delimiter, 65 KB keys), 15% byte soup; precisions ns/us/ms/s and unknown ones; executed in child processes with the input journalled before parsing; non-trivial = the parser returned a point or an error; distinct = hash of (precision, input)")
 	n := r.N(150000, 5000000)
 	batch := 5000
 	workers := 4
